@@ -2,7 +2,8 @@
 
 case = {"bodies": [body...], "ops": [op...]}
   body (what trigger number i does when called) = {"acts": [["add", ph, id] | ["rm", ph, id]], "fin": "n" | ["d", j] | "r"}
-        ph in "b" "d" "a"; "n" returns None, ["d", j] returns Deferred j, "r" raises; ["ds", j] returns Deferred j ALREADY CALLED BACK
+        ph in "b" "d" "a"; "n" returns None, ["d", j] returns Deferred j, "r" raises an Exception, "rb" raises an exception
+        that is a BaseException but NOT an Exception (SystemExit / GeneratorExit / a BaseException subclass, by trigger number); ["ds", j] returns Deferred j ALREADY CALLED BACK
         but with its chain suspended on an inner Deferred (succeed(None).addCallback(lambda _: inner_j)) — it delivers only
         when ["fd", j, ok] fires the inner one (if the history fired j earlier, a plain fired Deferred is returned)
   op = ["add", ph, id] | ["rm", ph, id] | ["fire"] | ["fd", j, ok]
@@ -43,6 +44,9 @@ def impl(case) -> str:
     class Boom(Exception):
         pass
 
+    class Quit(BaseException):
+        pass
+
     event = _ThreePhaseEvent()
     bodies = case["bodies"]
     evs: list[str] = []
@@ -79,6 +83,8 @@ def impl(case) -> str:
                 fin = b["fin"]
                 if fin == "r":
                     raise Boom()
+                if fin == "rb":
+                    raise (SystemExit, GeneratorExit, Quit)[i % 3]()
                 if fin == "n":
                     return None
                 d = getd(fin[1], fin[0])
@@ -104,18 +110,24 @@ def impl(case) -> str:
             elif k == "fire":
                 if all(j in resolved for j in curj):
                     curj.clear()
-                    event.fireEvent()
+                    try:
+                        event.fireEvent()
+                    except (SystemExit, GeneratorExit, Quit) as e:
+                        evs.append("!B" + type(e).__name__)      # an exception of a trigger escaped fireEvent
             elif k == "fd":
                 j = op[1]
                 d = getd(j)
                 if j not in resolved:
                     resolved.add(j)
                     target = inner.get(j, d)
-                    if op[2]:
-                        target.callback(None)
-                    else:
-                        target.errback(TFailure(Boom()))
-                        d.addErrback(lambda f: None)
+                    try:
+                        if op[2]:
+                            target.callback(None)
+                        else:
+                            target.errback(TFailure(Boom()))
+                            d.addErrback(lambda f: None)
+                    except (SystemExit, GeneratorExit, Quit) as e:
+                        evs.append("!B" + type(e).__name__)
             else:
                 raise ValueError(op)
             out.append("/" + "".join(e + ";" for e in evs))
@@ -156,6 +168,9 @@ def oracle(case, obs):
     for n, (op, es) in enumerate(zip(ops, groups)):
         where = f"op {n} {op} -> {es}: "
         k = op[0]
+        if any(e.startswith("!B") for e in es):
+            return Failure(case, where + "an exception raised by a trigger escaped the firing of the event; the triggers after it "
+                           "did not run", "trigger-exception-escaped-firing")
         if passive:
             want = []
             if k == "add":
@@ -172,7 +187,7 @@ def oracle(case, obs):
                 if not suspended:
                     ran_before = list(reg["b"])
                     want = [f"b{i}" for i in reg["b"]]
-                    waiting = [finof(i)[1] for i in reg["b"] if finof(i) not in ("n", "r") and finof(i)[1] not in fired]
+                    waiting = [finof(i)[1] for i in reg["b"] if finof(i) not in ("n", "r", "rb") and finof(i)[1] not in fired]
                     reg["b"] = []
                     suspended = True
             elif k == "fd":
@@ -242,7 +257,7 @@ def oracle(case, obs):
                             break
                     if ph == "b" and not aborted:
                         f = finof(i)
-                        if f not in ("n", "r") and f[1] not in fired:
+                        if f not in ("n", "r", "rb") and f[1] not in fired:
                             waiting.append(f[1])
             if firing_now and in_before[0] and reg["b"]:
                 return Failure(case, where + f"the before phase ended with before-trigger(s) {reg['b']} not run (registered before "
@@ -273,7 +288,7 @@ def _body(rng, i, n, nextj, reentrant):
     elif r < 0.8:
         fin = [rng.choice(["d", "d", "ds"]), rng.randrange(nextj)]
     else:
-        fin = "r"
+        fin = rng.choice(["r", "r", "rb"])
     return {"acts": acts, "fin": fin}
 
 
@@ -329,6 +344,15 @@ def gen(rng, tier):
               {"acts": [], "fin": "n"}, {"acts": [], "fin": "n"}]
         for tail in ([["fd", 0, True]], [["fd", 0, False], ["fire"]], []):
             cases.append({"bodies": b3, "ops": [["add", "b", 0], ["add", "d", 4], ["add", "a", 4], ["fire"]] + tail})
+    # a trigger of each phase raises an exception that is not an Exception subclass; the others must still run
+    for ph in "bda":
+        for pos in range(3):
+            for cls in range(3):
+                b6 = [{"acts": [], "fin": "n"} for _ in range(9)]
+                ids = [cls, cls + 3, cls + 6]
+                b6[ids[pos]] = {"acts": [], "fin": "rb"}
+                ops = [["add", p2, i] for p2 in "bda" for i in ([7, 8] if p2 != ph else ids)] + [["fire"], ["add", ph, 1], ["fire"]]
+                cases.append({"bodies": b6, "ops": ops})
     # a trigger registers ANOTHER trigger into the phase that is currently firing, with earlier-registered triggers of that
     # phase still pending: registration order is execution order (the new one runs last), at every position
     for ph in "bda":
@@ -371,7 +395,7 @@ def to_coq(case):
         return f"{'AAdd' if a[0] == 'add' else 'ARemove'} {ph[a[1]]} {a[2]}"
 
     def body(b):
-        fin = "RNone" if b["fin"] == "n" else "RRaise" if b["fin"] == "r" else f"(RDef {b['fin'][1]})"
+        fin = "RNone" if b["fin"] == "n" else "RRaise" if b["fin"] in ("r", "rb") else f"(RDef {b['fin'][1]})"
         return f"mkB {coq_list(map(act, b['acts']), 'act')} {fin}"
 
     def op(o):
@@ -405,7 +429,8 @@ SPEC = Spec(
     to_coq=to_coq,
     nontrivial=lambda c, o: sum(o.count(x) for x in ("b", "d", "a")) >= 3,
     histogram=lambda c, o: ("passive" if _passive(c) else "reentrant") + f" triggers<={len(c['bodies'])}",
-    rule="a trigger registering 1-2 triggers into the phase currently firing (before/during/after) from every position among 3-5 "
+    rule="a trigger of each phase, at each position, raising SystemExit / GeneratorExit / a BaseException subclass (not an Exception); "
+         "a trigger registering 1-2 triggers into the phase currently firing (before/during/after) from every position among 3-5 "
          "pending triggers; before-triggers returning plain or ALREADY-CALLED, chain-suspended Deferreds (succeed(None).addCallback(lambda _: inner)) "
          "resolved later in either order with success or failure; before-triggers registering further before-triggers during the "
          "firing; three Deferred-returning before-triggers fired in every order (6) x registrations/removals inserted at every "
